@@ -2081,3 +2081,119 @@ func init() {
 			return out
 		}})
 }
+
+// ---- KEYLEVELP
+//
+// A key-switching routine works modulo Q*P_l where l is the P-level *of the key*: the gadget product is accumulated in
+// that basis and the result divided by that P. A routine that holds an evaluation key (or gadget / RGSW ciphertext) and
+// takes its `levelP` from something else — the QP receiver, the parameters' maximum — divides by a P the key was not
+// generated for as soon as the key has fewer auxiliary primes than the other object.
+//
+// Rule: in every function of core/rlwe and core/rgsw that has a variable of a key type (GadgetCiphertext,
+// EvaluationKey, GaloisKey, RelinearizationKey, rgsw.Ciphertext) in scope, a variable named levelP that is defined from
+// a `.LevelP()` call is defined from a key-typed operand.
+
+func isKeyType(t types.Type) bool {
+	n := namedOf(t)
+	if n == nil {
+		return false
+	}
+	switch n.Obj().Name() {
+	case "GadgetCiphertext", "EvaluationKey", "GaloisKey", "RelinearizationKey":
+		return true
+	case "Ciphertext":
+		return n.Obj().Pkg() != nil && strings.HasSuffix(n.Obj().Pkg().Path(), "core/rgsw")
+	}
+	return false
+}
+
+func scanKeyLevelP(c *core.Ctx) []ob {
+	var out []ob
+	n := 0
+	c.FuncDecls(func(pk *packages.Package, file *ast.File, fd *ast.FuncDecl) {
+		rel := core.ShortPkg(pk.PkgPath)
+		if fd.Body == nil || fileIsTestSupport(c.Program, fd.Pos()) || !(c.IsFixture || rel == "core/rlwe" || strings.HasPrefix(rel, "core/rgsw")) {
+			return
+		}
+		if !c.IsFixture && !strings.Contains(core.RecvTypeName(fd), "Evaluator") {
+			return
+		}
+		info := pk.TypesInfo
+		hasKey := false
+		ast.Inspect(fd, func(x ast.Node) bool {
+			if id, ok := x.(*ast.Ident); ok {
+				if o := info.Defs[id]; o != nil {
+					if _, isVar := o.(*types.Var); isVar && isKeyType(o.Type()) {
+						hasKey = true
+					}
+				}
+			}
+			return !hasKey
+		})
+		if !hasKey {
+			return
+		}
+		fkey := core.FuncKey(pk, fd)
+		ast.Inspect(fd.Body, func(x ast.Node) bool {
+			as, ok := x.(*ast.AssignStmt)
+			if !ok || len(as.Lhs) != len(as.Rhs) {
+				return true
+			}
+			for i, l := range as.Lhs {
+				id, ok := l.(*ast.Ident)
+				if !ok || id.Name != "levelP" {
+					continue
+				}
+				call, ok := unparen(as.Rhs[i]).(*ast.CallExpr)
+				if !ok || len(call.Args) != 0 {
+					continue
+				}
+				sel, ok := unparen(call.Fun).(*ast.SelectorExpr)
+				if !ok || sel.Sel.Name != "LevelP" {
+					continue
+				}
+				n++
+				key := fmt.Sprintf("KEYLEVELP:%s#%s", fkey, exprString(sel.X))
+				// the operand, or the object it is a field of, is a key
+				isKey := false
+				for e := ast.Expr(sel.X); e != nil; {
+					if t := info.TypeOf(e); t != nil && isKeyType(t) {
+						isKey = true
+						break
+					}
+					switch y := unparen(e).(type) {
+					case *ast.SelectorExpr:
+						e = y.X
+					case *ast.IndexExpr:
+						e = y.X
+					case *ast.StarExpr:
+						e = y.X
+					case *ast.UnaryExpr:
+						e = y.X
+					default:
+						e = nil
+					}
+				}
+				if isKey {
+					out = append(out, okOb("KEYLEVELP", key, c.Rel(as.Pos()), "the P-level of the key switching is the key's", true))
+				} else {
+					out = append(out, violOb("KEYLEVELP", key, c.Rel(as.Pos()), fmt.Sprintf("%s holds an evaluation key but takes levelP from %s, which is not the key: the gadget product is accumulated and divided modulo a P the key may not have been generated for", fkey, exprString(sel.X))))
+				}
+			}
+			return true
+		})
+	})
+	c.Stats["keylevelp_sites"] = n
+	return out
+}
+
+func init() {
+	core.Register(&core.Rule{Name: "KEYLEVELP", Props: []string{"C04", "C11", "C20"},
+		Doc: "in the evaluators of core/rlwe and core/rgsw, a function that has an evaluation key / gadget / RGSW ciphertext in scope defines its levelP from the LevelP() of that key, not of the receiver or of another element",
+		Run: func(c *core.Ctx) []ob {
+			out := scanKeyLevelP(c)
+			out = append(out, control(c, "KEYLEVELP", scanKeyLevelP, "(fixEvaluator).SwitchWith")...)
+			out = append(out, core.Floor("KEYLEVELP", nil, "levelP definitions next to a key", c.Stats["keylevelp_sites"], 5)...)
+			return out
+		}})
+}
